@@ -129,6 +129,21 @@ func runC06(c *Ctx) {
 				fail("codec B response decode of codec A bytes: got %s want %s", truncs(s2), truncs(w))
 			}
 		}
+		// INIT and VERSION carry no request id and have decoders of their own in codec B: they too must recover the logical packet
+		// from codec A's bytes, every extension pair in its place
+		if (p.Kind == "init" || p.Kind == "version") && errA == nil {
+			d4, ek4, pan4 := sftp.VerifDecBInitVersion(encA[4:])
+			s4 := canon(d4)
+			if d4 == nil {
+				s4 = "err:" + ek4
+			}
+			c.Stat("initversion_decB")
+			if pan4 {
+				fail("codec B %s decoder panicked on codec A bytes", p.Kind)
+			} else if w := canon(p); s4 != w {
+				fail("codec B %s decode of codec A bytes: got %s want %s", p.Kind, truncs(s4), truncs(w))
+			}
+		}
 		// codec B decoding into a packet value that was used before (the values own slices a decoder may reuse): the result
 		// must not depend on what the value held. The earlier content is a sibling of the same kind with more of everything.
 		switch p.Kind {
